@@ -1,6 +1,7 @@
 package an
 
 import (
+	"strings"
 	"go/token"
 	"go/types"
 
@@ -139,7 +140,7 @@ func (n *NonNil) NilImpliesErr(f *ssa.Function) bool {
 		if !ok {
 			break
 		}
-		ret, isRet := b.Instrs[len(b.Instrs)-1].(*ssa.Return)
+		ret, isRet := AsReturn(b.Instrs[len(b.Instrs)-1])
 		if !isRet {
 			continue
 		}
@@ -395,9 +396,16 @@ func GlobalWrites(fns []*ssa.Function) []GlobalWrite {
 						out = append(out, GlobalWrite{in, g, "map update"})
 					}
 				case ssa.CallInstruction:
-					if CalleeName(x.Common()) == "builtin:delete" && len(x.Common().Args) > 0 {
+					name := CalleeName(x.Common())
+					if name == "builtin:delete" && len(x.Common().Args) > 0 {
 						if g := rootGlobal(x.Common().Args[0], 0); g != nil {
 							out = append(out, GlobalWrite{in, g, "map delete"})
+						}
+					}
+					// append / copy into a slice of a package-level array or slice write its elements
+					if (name == "builtin:append" || name == "builtin:copy") && len(x.Common().Args) > 0 {
+						if g := sliceRootGlobal(x.Common().Args[0], 0); g != nil {
+							out = append(out, GlobalWrite{in, g, strings.TrimPrefix(name, "builtin:") + " into its storage"})
 						}
 					}
 				}
@@ -459,7 +467,7 @@ func (n *NonNil) PairContract(g *ssa.Function, depth int) bool {
 	n.fnMemo[g] = 3
 	ok, rets := true, 0
 	for _, b := range g.Blocks {
-		ret, isRet := b.Instrs[len(b.Instrs)-1].(*ssa.Return)
+		ret, isRet := AsReturn(b.Instrs[len(b.Instrs)-1])
 		if !isRet || len(ret.Results) != 2 {
 			continue
 		}
@@ -563,7 +571,7 @@ func alwaysNilErr(v ssa.Value, depth int) bool {
 		}
 		n := 0
 		for _, b := range g.Blocks {
-			ret, isRet := b.Instrs[len(b.Instrs)-1].(*ssa.Return)
+			ret, isRet := AsReturn(b.Instrs[len(b.Instrs)-1])
 			if !isRet || x.Index >= len(ret.Results) {
 				continue
 			}
@@ -591,4 +599,34 @@ func deadOnNilError(at *ssa.BasicBlock) bool {
 		}
 	}
 	return false
+}
+
+// sliceRootGlobal: the slice value aliases storage of a package-level variable (a slice of a global array, a
+// re-slice or an append result of such, a slice loaded from a global).
+func sliceRootGlobal(v ssa.Value, d int) *ssa.Global {
+	if d > 8 {
+		return nil
+	}
+	switch x := v.(type) {
+	case *ssa.Slice:
+		if g := rootGlobal(x.X, 0); g != nil {
+			return g
+		}
+		return sliceRootGlobal(x.X, d+1)
+	case *ssa.UnOp:
+		if x.Op == token.MUL {
+			return rootGlobal(x.X, 0)
+		}
+	case *ssa.Call:
+		if CalleeName(x.Common()) == "builtin:append" && len(x.Call.Args) > 0 {
+			return sliceRootGlobal(x.Call.Args[0], d+1)
+		}
+	case *ssa.Phi:
+		for _, e := range x.Edges {
+			if g := sliceRootGlobal(e, d+1); g != nil {
+				return g
+			}
+		}
+	}
+	return nil
 }
